@@ -51,6 +51,22 @@ def check(repo, res, tier):
     a9(repo, res, canon)
 
 
+def asserted_calls(test, pol):
+    """Call nodes whose truth is asserted when `test` evaluates to `pol`"""
+    if isinstance(test, ast.UnaryOp) and isinstance(test.op, ast.Not):
+        return asserted_calls(test.operand, not pol)
+    if isinstance(test, ast.BoolOp):
+        if isinstance(test.op, ast.And) == pol:
+            out = []
+            for v in test.values:
+                out += asserted_calls(v, pol)
+            return out
+        return []
+    if isinstance(test, ast.Call) and pol:
+        return [test]
+    return []
+
+
 def a1(repo, res, canon, pc, logic):
     t = repo.func('Telescope.run')
     fr = Frame(t)
@@ -71,11 +87,11 @@ def a1(repo, res, canon, pc, logic):
             for i, e in enumerate(p.events):
                 if not stmt_contains(e, lambda x: x is node):
                     continue
-                tests = [x for x in p.events[:i] if x.kind == 'test' and x.pol]
+                tests = [x for x in p.events[:i] if x.kind == 'test']
                 ready = cap = None
                 checked = False
                 for x in tests:
-                    for c in ast.walk(x.node):
+                    for c in asserted_calls(x.node, x.pol):
                         if isinstance(c, ast.Call) and call_name(c) == 'is_ready' and canon.c(c.func.value, fr) == obs:
                             a = bound_args(repo, 'Observation.is_ready', c, fr)
                             ready = a
@@ -325,8 +341,8 @@ def a8(repo, res, canon, logic):
                     if e.node is n:
                         fin = False
                         for x in p.events[:i]:
-                            if x.kind == 'test' and x.pol:
-                                for c in ast.walk(x.node):
+                            if x.kind == 'test':
+                                for c in asserted_calls(x.node, x.pol):
                                     if isinstance(c, ast.Call) and call_name(c) == 'is_finished' and \
                                             canon.c(c.func.value, fr) == tgt:
                                         fin = True
